@@ -20,6 +20,7 @@ FAMILIES = {
         {'family': 'core', 'knobs': {'frag': 100, 'mode': 'msg'}, 'quick': 100, 'thorough': 2000, 'first': 100000},
         # an interaction is ended while a fragmented frame of it is half-written (the CANCEL / ERROR is handled with the sender blocked)
         {'family': 'midframe', 'knobs': {}, 'quick': 200, 'thorough': 3000, 'first': 950000},
+        {'family': 'lease', 'knobs': {'lease_cancel': True}, 'quick': 150, 'thorough': 2500, 'first': 300000, 'also': ('C08.first_frame_is_request',)},
         {'family': 'core', 'knobs': {}, 'quick': 100, 'thorough': 2000, 'first': 200000},
         {'family': 'tlccover2', 'knobs': {}, 'quick': 0, 'thorough': 0, 'first': 800000},
     ],
@@ -131,6 +132,8 @@ FAMILIES = {
         {'family': 'core', 'knobs': {'frag': 64, 'gating': True, 'p_cancel': 0.4, 'p_error': 0.1, 'kinds': ['stream', 'stream', 'channel', 'rr'],
                                      'sources': ['scripted'], 'min_steps': 20, 'max_steps': 50}, 'quick': 250, 'thorough': 4000, 'first': 900000},
         {'family': 'midframe', 'knobs': {}, 'quick': 250, 'thorough': 4000, 'first': 950000},
+        # interactions cancelled / granted more credit while their request is still waiting for a lease
+        {'family': 'lease', 'knobs': {'lease_cancel': True}, 'quick': 150, 'thorough': 2500, 'first': 300000},
         # "... and the stream's id can be used again": ids wrap around and are used again within one connection
         {'family': 'idwrap', 'knobs': {}, 'quick': 200, 'thorough': 3000, 'first': 300000},
         # interactions that end with their connection, between two fragments of an inbound frame; the id is used again after the reconnect
